@@ -141,6 +141,8 @@ def rename_tree(t, amap, vocab, ijk=None, dig=None, additive=False):
         voc = vocab[0] if k == 'id' else vocab[1]
         if ijk and len(n) == 1 and n in ijk:
             return (k, ijk[n])
+        if ijk and k == 'id' and len(n) > 1 and n[0] in ijk and (ijk[n[0]] + n[1:]) in voc:
+            return (k, ijk[n[0]] + n[1:])      # i_cell -> j_cell -> k_cell: the same coupled index family under a common suffix
         r = rename_name(n, amap, voc, 'id' if k == 'id' else 'mem')
         if dig == 'names' and k == 'id' and r == n:
             m_ = re.match(r'^(.*?)(\d)$', n)
